@@ -168,6 +168,15 @@ void cv_sparse_digit_cells(CellVec *c, int res, int quick) {
         if (!cellToCenterChild(a, res, &ch)) cv_push(c, ch);
     }
 }
+void cv_sparse_digit_sample(CellVec *c, int res, int n) {
+    CellVec all = {0}; cv_sparse_digit_cells(&all, res, 0);
+    /* always: in three pentagon base cells and one hexagon base cell, a non-zero digit followed by centre digits only */
+    static const int bcs[] = {4, 58, 117, 20};
+    for (int b = 0; b < 4 && res >= 1; b++) { int p = 1 + (int)vt_randn(res > 3 ? 3 : res); uint64_t h = ((uint64_t)1 << 59) | ((uint64_t)res << 52) | ((uint64_t)bcs[b] << 45) | ((uint64_t)(2 + vt_randn(5)) << (3 * (15 - p)));
+        for (int r = res + 1; r <= 15; r++) h |= (uint64_t)7 << (3 * (15 - r)); if (isValidCell(h)) cv_push(c, h); }
+    for (int k = 0; k < n && all.n > 0; k++) cv_push(c, all.v[vt_randn(all.n)]);
+    cv_free(&all);
+}
 void cv_polar_cells(CellVec *c, int res) {
     for (int s = -1; s <= 1; s += 2) {
         LatLng pl = {s * M_PI_2, 0}; H3Index h;
